@@ -107,8 +107,10 @@ def main():
                     "command": f"cargo test --offline --features websocket,value-stream,verif-hooks --test demo_{pid}_{n} -- --test-threads=1",
                 },
                 "confirmed_by_me": {
-                    "worktree": f"/tmp/mut/{pid} (scratch git worktree of /repo HEAD, removed afterwards)",
-                    "patch_applies_to_head": True,
+                    "worktree": f"/tmp/mut/{pid} (scratch git worktree of /repo, removed afterwards)",
+                    # the commit of /repo the patch was made and confirmed against (later fix: commits may have moved the code)
+                    "base_commit": c.get("base") or ("0846219" if n <= 8 else "e16b7bd"),
+                    "patch_applies_to_base": True,
                     "builds": "cargo build --offline; cargo build --offline --features websocket,value-stream,verif-hooks: ok",
                     "existing_suite_with_patch": "cargo test --workspace --no-fail-fast --offline: 213 passed, 0 failed",
                     "demo_with_patch_exit": c["demo_exit_with_patch"],
